@@ -1,14 +1,973 @@
-//! C18 — stub, to be implemented.
+//! C18 — TCP relays are byte-exact and PROXY protocol headers are exact and unique.
+//!
+//! One real worker with one TCP listener + cluster + backend per planned connection (so that every
+//! backend connection is attributable), clusters in mode none / send / expect / relay. Scripted
+//! client and backend peers (actors/tcp.rs) stream position-keyed bytes both ways while verifying
+//! the other side's stream, with plan-chosen quanta, pauses, read holds (back-pressure), socket
+//! buffer sizes and ways of ending the connection. In expect/relay mode the client first sends a
+//! PROXY v2 header of a plan-chosen shape cut into plan-chosen fragments.
+//!
+//! Violation keys carry a plan-level trigger (never derived from what sozu did):
+//! * pipe verdicts: `<symptom>|<c2b|b2c>|<trigger>` with trigger = who sends the first FIN and what
+//!   is in flight then by construction: `none` (the closing side waits, out of band, until both
+//!   directions were delivered: no FIN races with data), `client_fin_behind_data`,
+//!   `backend_fin_behind_data`, `client_half_close`, `backend_half_close`, `both_half_close`, `reset`;
+//! * sessions that start in a header state: `<expect|relay>_session|<family>|<split|whole>[|symptom]`
+//!   (refused headers: the shape name instead of the family);
+//! * whole-worker verdicts: `panic worker|expect_mode_session`, `spin worker|relay_mode_session`.
 #![allow(dead_code)]
+
+use std::collections::BTreeMap;
+use std::net::SocketAddr;
+
+use serde::{Deserialize, Serialize};
 use serde_json::Value;
+use sozu_command_lib::{
+    config::ListenerBuilder,
+    proto::command::{
+        request::RequestType, ActivateListener, AddBackend, Cluster, ListenerType, LoadBalancingParams, ProxyProtocolConfig, Request,
+        RequestTcpFrontend,
+    },
+    scm_socket::Listeners,
+    state::ConfigState,
+};
+
+use crate::actors::master::{MOp, Master};
+use crate::actors::tcp::*;
+use crate::actors::{gen_byte, Pace, Quantum};
 use crate::framework::*;
+use crate::netsim::{self, Knobs};
+use crate::prng::Prng;
+use crate::world::{ConnectMode, SchedCfg, Stats, World, MS, SEC};
 
 pub struct C18;
 
+// =========================================================================== plan
+
+#[derive(Clone, Copy, Debug, Serialize, Deserialize, PartialEq)]
+pub enum Mode { None, Send, Expect, Relay }
+impl Mode {
+    fn name(&self) -> &'static str { match self { Mode::None => "none", Mode::Send => "send", Mode::Expect => "expect", Mode::Relay => "relay" } }
+}
+
+#[derive(Clone, Debug, Serialize, Deserialize, PartialEq)]
+pub enum HdrClass {
+    /// legal v2 header of at most 232 bytes: must be accepted
+    Valid,
+    /// legal by the specification but longer than the 232 bytes sozu documents as its maximum
+    Oversized,
+    /// violates the specification (the string names how)
+    Malformed(String),
+    /// a legal header cut short: the client sends only a strict prefix of it, then its FIN
+    Truncated,
+}
+
+#[derive(Clone, Debug, Serialize, Deserialize)]
+pub struct HdrInfo {
+    pub shape: String,
+    pub class: HdrClass,
+    /// total length of the header bytes the client sends
+    pub len: usize,
+    /// addresses carried by the header (None for LOCAL / UNSPEC / UNIX)
+    pub src: Option<SocketAddr>,
+    pub dst: Option<SocketAddr>,
+}
+
+#[derive(Clone, Debug, Serialize, Deserialize)]
+pub struct ConnPlan {
+    pub mode: Mode,
+    pub front: SocketAddr,
+    pub backend: SocketAddr,
+    pub connect_delay_ns: u64,
+    pub hdr: Option<HdrInfo>,
+    pub client: TcpClientPlan,
+    pub server: TcpBackendPlan,
+}
+
+#[derive(Clone, Debug, Serialize, Deserialize)]
+pub struct TcpPlan {
+    pub seed: u64,
+    pub family: String,
+    pub knobs: Knobs,
+    pub sched: SchedCfg,
+    pub sndbufs: Option<Vec<i32>>,
+    pub front_timeout: u32,
+    pub back_timeout: u32,
+    pub connect_timeout: u32,
+    pub conns: Vec<ConnPlan>,
+}
+
+#[derive(Clone, Debug, Default)]
+pub struct ConnOutcome {
+    pub client: SideRecord,
+    pub backend: Vec<SideRecord>,
+}
+
+#[derive(Clone, Debug, Default)]
+pub struct TcpOutcome {
+    pub conns: Vec<ConnOutcome>,
+    pub config_finals: BTreeMap<String, u32>,
+    pub config_failures: Vec<String>,
+    pub panicked: Option<String>,
+    pub aborted: Option<String>,
+    pub boot_error: Option<String>,
+    /// (loop iteration, data syscalls inside it) each time the spin watchdog had to break a proxy loop
+    pub spins: Vec<(u64, u64)>,
+    pub stats: Stats,
+    pub trace_hash: u64,
+    pub t_end: u64,
+    pub log: Vec<String>,
+}
+
+// =========================================================================== header shapes
+
+fn v4(a: &str) -> SocketAddr { a.parse().unwrap() }
+
+fn tlv_fill(total_value: usize) -> Vec<(u8, Vec<u8>)> {
+    // one PP2_TYPE_NOOP TLV whose value has `total_value` bytes (3 bytes of TLV header come on top)
+    vec![(0x04, (0..total_value).map(|i| (i as u8) ^ 0x5A).collect())]
+}
+
+/// (shape name, class, header bytes, src, dst). Everything the client can be asked to send.
+pub fn header_shapes() -> Vec<(String, HdrClass, Vec<u8>, Option<SocketAddr>, Option<SocketAddr>)> {
+    let s4 = v4("203.0.113.7:51000");
+    let d4 = v4("198.51.100.9:443");
+    let s6: SocketAddr = "[2001:db8:1::7]:51001".parse().unwrap();
+    let d6: SocketAddr = "[2001:db8:2::9]:8443".parse().unwrap();
+    let inet4 = PpAddr::Inet { src: s4, dst: d4 };
+    let inet6 = PpAddr::Inet { src: s6, dst: d6 };
+    let spec = |command: u8, transport: u8, addr: PpAddr, tlvs: Vec<(u8, Vec<u8>)>| PpSpec { command, version: 2, transport, addr, tlvs };
+    let mut v: Vec<(String, HdrClass, Vec<u8>, Option<SocketAddr>, Option<SocketAddr>)> = Vec::new();
+    let mut add = |name: &str, class: HdrClass, bytes: Vec<u8>, src: Option<SocketAddr>, dst: Option<SocketAddr>| v.push((name.to_string(), class, bytes, src, dst));
+    // ---- valid, <= 232 bytes
+    add("proxy_tcp4", HdrClass::Valid, spec(1, 1, inet4.clone(), vec![]).encode(), Some(s4), Some(d4));
+    add("proxy_tcp6", HdrClass::Valid, spec(1, 1, inet6.clone(), vec![]).encode(), Some(s6), Some(d6));
+    add("local_unspec", HdrClass::Valid, spec(0, 0, PpAddr::Unspec { filler: 0 }, vec![]).encode(), None, None);
+    add("local_tcp4", HdrClass::Valid, spec(0, 1, inet4.clone(), vec![]).encode(), None, None);
+    add("proxy_unspec_filler12", HdrClass::Valid, spec(1, 0, PpAddr::Unspec { filler: 12 }, vec![]).encode(), None, None);
+    add("proxy_udp4", HdrClass::Valid, spec(1, 2, inet4.clone(), vec![]).encode(), Some(s4), Some(d4));
+    add("proxy_unix", HdrClass::Valid, spec(1, 1, PpAddr::Unix { src: b"/run/src.sock".to_vec(), dst: b"/run/dst.sock".to_vec() }, vec![]).encode(), None, None);
+    add("tcp4_tlv_to38", HdrClass::Valid, spec(1, 1, inet4.clone(), tlv_fill(7)).encode(), Some(s4), Some(d4));
+    add("tcp4_tlv_to52", HdrClass::Valid, spec(1, 1, inet4.clone(), tlv_fill(21)).encode(), Some(s4), Some(d4));
+    add("tcp4_tlv_to53", HdrClass::Valid, spec(1, 1, inet4.clone(), tlv_fill(22)).encode(), Some(s4), Some(d4));
+    add("tcp6_tlv_to72", HdrClass::Valid, spec(1, 1, inet6.clone(), tlv_fill(17)).encode(), Some(s6), Some(d6));
+    add("tcp4_tlv_to231", HdrClass::Valid, spec(1, 1, inet4.clone(), tlv_fill(200)).encode(), Some(s4), Some(d4));
+    add("tcp4_tlv_to232", HdrClass::Valid, spec(1, 1, inet4.clone(), tlv_fill(201)).encode(), Some(s4), Some(d4));
+    // ---- legal but over sozu's documented 232-byte maximum
+    add("tcp4_tlv_to233", HdrClass::Oversized, spec(1, 1, inet4.clone(), tlv_fill(202)).encode(), Some(s4), Some(d4));
+    add("tcp6_tlv_to300", HdrClass::Oversized, spec(1, 1, inet6.clone(), tlv_fill(245)).encode(), Some(s6), Some(d6));
+    add("unix_tlv_to240", HdrClass::Oversized, spec(1, 1, PpAddr::Unix { src: b"a".to_vec(), dst: b"b".to_vec() }, tlv_fill(5)).encode(), None, None);
+    // ---- malformed
+    let good = spec(1, 1, inet4.clone(), vec![]).encode();
+    for k in [0usize, 5, 11] {
+        let mut b = good.clone();
+        b[k] ^= 0x40;
+        add(&format!("bad_sig_at{k}"), HdrClass::Malformed("signature".into()), b, None, None);
+    }
+    let mut b = good.clone(); b[12] = 0x31;
+    add("bad_version3", HdrClass::Malformed("version".into()), b, None, None);
+    let mut b = good.clone(); b[12] = 0x11;
+    add("bad_version1", HdrClass::Malformed("version".into()), b, None, None);
+    let mut b = good.clone(); b[12] = 0x22;
+    add("bad_command2", HdrClass::Malformed("command".into()), b, None, None);
+    let mut b = good.clone(); b[13] = 0x41;
+    add("bad_family4", HdrClass::Malformed("family".into()), b, None, None);
+    add("v1_text", HdrClass::Malformed("signature".into()), b"PROXY TCP4 203.0.113.7 198.51.100.9 51000 443\r\n".to_vec(), None, None);
+    // a valid header cut short (the client then half-closes): incomplete, never acceptable as a header
+    add("tcp4_cut_at20", HdrClass::Truncated, good[..20].to_vec(), None, None);
+    add("tcp6_cut_at40", HdrClass::Truncated, spec(1, 1, inet6, vec![]).encode()[..40].to_vec(), None, None);
+    v
+}
+
+fn shape_by_name(name: &str) -> (String, HdrClass, Vec<u8>, Option<SocketAddr>, Option<SocketAddr>) {
+    header_shapes().into_iter().find(|s| s.0 == name).expect("unknown header shape")
+}
+
+// =========================================================================== generator
+
+fn minq(q: &Quantum) -> u64 {
+    match q { Quantum::All => 2048, Quantum::Fixed(n) => (*n).max(1) as u64, Quantum::Uniform(a, _) => (*a).max(1) as u64 }
+}
+
+/// Pace whose pauses add up to well under half a virtual second whatever the fragmentation.
+fn bounded_pace(rng: &mut Prng, own: u64, peer: u64) -> Pace {
+    let mut wq = Quantum::random(rng);
+    let mut rq = Quantum::random(rng);
+    let tiny = |q: &Quantum| minq(q) < 64;
+    if own > 24 * 1024 && tiny(&wq) { wq = Quantum::Uniform(200, 4000); }
+    if peer > 24 * 1024 && tiny(&rq) { rq = Quantum::Uniform(200, 4000); }
+    let gap_pm = *rng.pick(&[0u32, 0, 0, 50, 200, 500]);
+    let mut gap_ns = *rng.pick(&[1_000u64, 100_000, 1_000_000, 20_000_000]);
+    if gap_pm > 0 {
+        // worst case: every write is one quantum; reads come in as finely as the other side may dribble
+        // (1 byte at a time is possible up to 24 KiB, at least 200 bytes per write beyond)
+        let ops = own / minq(&wq) + if peer <= 24 * 1024 { peer } else { peer / 200 } + 4;
+        let pauses = ops * gap_pm as u64 / 1000 + 1;
+        gap_ns = gap_ns.min(400_000_000 / pauses).max(1);
+    }
+    Pace { wq, rq, gap_pm, gap_ns }
+}
+
+fn stream_len(rng: &mut Prng, buffer_size: u64, max: u64) -> u64 {
+    let b = buffer_size;
+    let v = match rng.below(10) {
+        0 => 0,
+        1 => rng.below(64),
+        2 => rng.below(4096),
+        3 => rng.below(max + 1),
+        4 => rng.below(70_000),
+        _ => {
+            let base = *rng.pick(&[1u64, 28, 52, 232, 4608, b, 2 * b, 3 * b, 16384, 65536, 131072, 212992, 262144]);
+            let d = *rng.pick(&[0i64, 0, 1, -1, 2, -2, 9, -9, 17]);
+            (base as i64 + d).max(0) as u64
+        }
+    };
+    v.min(max)
+}
+
+/// Names the close choreography of a connection from the plan alone (never from what sozu did).
+pub fn flow_of(c: &ConnPlan) -> String {
+    let (cs, ss) = (&c.client.side, &c.server.side);
+    match (cs.end, ss.end) {
+        (End::AfterDelivered, End::WaitPeer) => "client_closes_when_quiet".into(),
+        (End::WaitPeer, End::AfterDelivered) => "backend_closes_when_quiet".into(),
+        (End::AfterAll, End::WaitPeer) => "client_closes_after_all".into(),
+        (End::WaitPeer, End::AfterAll) => "backend_closes_after_all".into(),
+        (End::HalfClose, End::WaitPeer) => if ss.len == 0 { "client_fin_after_data".into() } else { "client_half_close".into() },
+        (End::WaitPeer, End::HalfClose) => if cs.len == 0 { "backend_fin_after_data".into() } else { "backend_half_close".into() },
+        (End::HalfClose, End::HalfClose) => "both_half_close".into(),
+        (End::CloseNow, End::WaitPeer) => if ss.len == 0 { "client_close_after_data".into() } else { "client_reset".into() },
+        (End::WaitPeer, End::CloseNow) => if cs.len == 0 { "backend_close_after_data".into() } else { "backend_reset".into() },
+        (a, b) => format!("{a:?}/{b:?}"),
+    }
+}
+
+const DEADLINE_NS: u64 = 200 * SEC;
+
+fn make_conn(rng: &mut Prng, idx: usize, mode: Mode, v6: bool, buffer_size: u64, max_len: u64, flow: u64, hdr: Option<(String, HdrClass, Vec<u8>, Option<SocketAddr>, Option<SocketAddr>)>) -> ConnPlan {
+    let (front, backend, src): (SocketAddr, SocketAddr, SocketAddr) = if v6 {
+        (format!("[2001:db8:f::{:x}]:{}", idx + 1, 8000 + idx).parse().unwrap(), format!("[2001:db8:b::{:x}]:{}", idx + 1, 9000 + idx).parse().unwrap(), format!("[2001:db8:c::{:x}]:{}", 7 + idx, 40001 + idx).parse().unwrap())
+    } else {
+        (format!("10.0.0.{}:{}", idx + 1, 8000 + idx).parse().unwrap(), format!("10.1.0.{}:{}", idx + 1, 9000 + idx).parse().unwrap(), format!("192.0.2.{}:{}", 7 + idx, 40001 + idx).parse().unwrap())
+    };
+    let ckey = 0x1000 + 2 * idx as u64;
+    let skey = 0x1001 + 2 * idx as u64;
+    let mut clen = stream_len(rng, buffer_size, max_len);
+    let mut slen = stream_len(rng, buffer_size, max_len);
+    let bad_hdr = hdr.as_ref().map_or(false, |h| h.1 != HdrClass::Valid);
+    // close choreography
+    let (cend, send) = match flow {
+        0 => (End::AfterDelivered, End::WaitPeer),
+        1 => (End::WaitPeer, End::AfterDelivered),
+        11 => (End::AfterAll, End::WaitPeer),
+        12 => (End::WaitPeer, End::AfterAll),
+        2 => { slen = 0; (End::HalfClose, End::WaitPeer) }
+        3 => { clen = 0; (End::WaitPeer, End::HalfClose) }
+        4 => { slen = 0; (End::CloseNow, End::WaitPeer) }
+        5 => { clen = 0; (End::WaitPeer, End::CloseNow) }
+        6 => { slen = slen.max(1); (End::HalfClose, End::WaitPeer) }
+        7 => { clen = clen.max(1); (End::WaitPeer, End::HalfClose) }
+        8 => (End::HalfClose, End::HalfClose),
+        9 => { slen = slen.max(1); (End::CloseNow, End::WaitPeer) }
+        _ => { clen = clen.max(1); (End::WaitPeer, End::CloseNow) }
+    };
+    let (mut cend, mut send) = (cend, send);
+    // "quiet" means no FIN races with anything, connection establishment included: somebody says something first
+    if flow <= 1 && clen == 0 && slen == 0 { if rng.below(2) == 0 { clen = 1 + rng.below(40) } else { slen = 1 + rng.below(40) } }
+    if bad_hdr {
+        // the client states its (bad) header, a little payload, and waits for the verdict
+        clen = clen.min(300);
+        slen = 0;
+        cend = if hdr.as_ref().unwrap().1 == HdrClass::Truncated { clen = 0; End::HalfClose } else { End::WaitPeer };
+        send = End::WaitPeer;
+    }
+    let hold = |rng: &mut Prng| if rng.below(4) == 0 { *rng.pick(&[1 * MS, 20 * MS, 200 * MS]) } else { 0 };
+    let name = format!("k{idx}");
+    let mut cside = SidePlan {
+        tag: format!("{name}c"), peer_tag: format!("{name}b"),
+        key: ckey, len: clen, peer_key: skey, peer_len: slen,
+        pace: bounded_pace(rng, clen, slen),
+        sndbuf: if rng.below(3) == 0 { Some(*rng.pick(&[4608, 9216, 65536])) } else { None },
+        read_hold_ns: hold(rng), write_hold_ns: if rng.below(6) == 0 { hold(rng) } else { 0 },
+        end: cend, pre: vec![], frags: vec![], deadline_ns: DEADLINE_NS,
+    };
+    let sside = SidePlan {
+        tag: format!("{name}b"), peer_tag: format!("{name}c"),
+        key: skey, len: slen, peer_key: ckey, peer_len: clen,
+        pace: bounded_pace(rng, slen, clen),
+        sndbuf: if rng.below(3) == 0 { Some(*rng.pick(&[4608, 9216, 65536])) } else { None },
+        read_hold_ns: hold(rng), write_hold_ns: if rng.below(6) == 0 { hold(rng) } else { 0 },
+        end: send, pre: vec![], frags: vec![], deadline_ns: DEADLINE_NS,
+    };
+    let mut info = None;
+    let mut prefix = match mode { Mode::Send => Prefix::V2Header, _ => Prefix::None };
+    if let Some((shape, class, bytes, hs, hd)) = hdr {
+        let hl = bytes.len() as u64;
+        // seeded fragmentation of the header; the last fragment may swallow the first payload bytes
+        let mut frags: Vec<Frag> = Vec::new();
+        let ncuts = match rng.below(6) { 0 => 0, 1 | 2 => 1, 3 => 2, 4 => 3, _ => rng.below(hl.min(12)) as usize };
+        let mut cuts: Vec<u64> = (0..ncuts).map(|_| 1 + rng.below(hl.max(2) - 1)).collect();
+        cuts.sort();
+        cuts.dedup();
+        for c in cuts { if c < hl { frags.push(Frag { upto: c, delay_ns: *rng.pick(&[0u64, 1_000, 1_000, 50_000, 2 * MS]) }); } }
+        let glue = if clen > 0 && rng.below(3) == 0 { 1 + rng.below(clen.min(64)) } else { 0 };
+        frags.push(Frag { upto: hl + glue, delay_ns: *rng.pick(&[0u64, 0, 1_000, 1 * MS]) });
+        cside.pre = bytes.clone();
+        cside.frags = frags;
+        if mode == Mode::Relay && class == HdrClass::Valid { prefix = Prefix::Exact(bytes.clone()); }
+        info = Some(HdrInfo { shape, class, len: bytes.len(), src: hs, dst: hd });
+    }
+    ConnPlan {
+        mode, front, backend,
+        connect_delay_ns: if rng.below(3) == 0 { rng.below(20 * MS) } else { 0 },
+        hdr: info,
+        client: TcpClientPlan { name: name.clone(), src, dst: front, start_ns: rng.below(3) * MS, wait_backend: true, side: cside },
+        server: TcpBackendPlan { name: format!("b{idx}"), addr: backend, client: name, prefix, side: sside },
+    }
+}
+
+pub fn generate(seed: u64, tier: Tier) -> TcpPlan {
+    let mut rng = Prng::derive(seed, "c18/plan");
+    let faulty = rng.below(2) == 1;
+    let mut knobs = Knobs::default();
+    knobs.buffer_size = *rng.pick(&[16393u64, 16393, 16393, 4096, 2048, 32768, 65536]);
+    knobs.max_buffers = *rng.pick(&[1000u64, 1000, 64, 16]);
+    let max_len: u64 = match tier { Tier::Quick => 300_000, Tier::Thorough => 3_000_000 };
+    // "churn" plans: three tiny sessions starting together, at least one of which hangs up at once, big actor
+    // bursts and permuted events: sessions are torn down and set up within one epoll batch (token recycling)
+    let churn = rng.below(12) == 0;
+    let nconns = if churn { 3 } else { *rng.pick(&[1usize, 1, 1, 2, 3]) };
+    let max_len: u64 = if churn { 8 } else { max_len };
+    let mut conns = Vec::new();
+    let shapes = header_shapes();
+    let mut fam: Vec<String> = Vec::new();
+    for i in 0..nconns {
+        let mode = if churn { *rng.pick(&[Mode::None, Mode::Send]) } else { *rng.pick(&[Mode::None, Mode::None, Mode::None, Mode::None, Mode::Send, Mode::Send, Mode::Send, Mode::Send, Mode::Expect, Mode::Relay]) };
+        let v6 = rng.below(4) == 0;
+        let hdr = match mode {
+            Mode::Expect | Mode::Relay => {
+                // two thirds valid shapes
+                let valid: Vec<_> = shapes.iter().filter(|s| s.1 == HdrClass::Valid).cloned().collect();
+                let other: Vec<_> = shapes.iter().filter(|s| s.1 != HdrClass::Valid).cloned().collect();
+                Some(if rng.below(3) < 2 { rng.pick(&valid).clone() } else { rng.pick(&other).clone() })
+            }
+            _ => None,
+        };
+        // orderly flows dominate; each of the others has its own trigger label
+        // quiet flows dominate; each of the others has its own trigger label. Sessions that start in a
+        // PROXY-header state are about the header: they always end quietly (FIN handling is probed in none/send mode)
+        let flow = if churn { if i == 0 { *rng.pick(&[10u64, 10, 10, 5, 4, 2, 9]) } else { rng.below(2) } }
+            else if hdr.is_some() { rng.below(2) }
+            else { *rng.pick(&[0u64, 0, 0, 0, 1, 1, 1, 1, 2, 3, 4, 5, 6, 7, 8, 9, 10, 11, 12]) };
+        let mut c = make_conn(&mut rng, i, mode, v6, knobs.buffer_size, max_len, flow, hdr);
+        if churn && i == 0 && flow == 10 && rng.below(3) < 2 {
+            // the backend hangs up on accept without a byte while the client talks
+            c.server.side.len = 0;
+            c.client.side.peer_len = 0;
+        }
+        if churn {
+            // a few proxy-loop iterations (1 us each) apart, so that one session sets up while another tears down
+            c.client.start_ns = i as u64 * *rng.pick(&[0u64, 1_000, 2_000, 3_000, 5_000]);
+            c.connect_delay_ns = 0;
+            for s in [&mut c.client.side, &mut c.server.side] { s.pace = Pace::greedy(); s.read_hold_ns = 0; s.write_hold_ns = 0; }
+        }
+        fam.push(format!("{}:{}", mode.name(), flow_of(&c)));
+        conns.push(c);
+    }
+    fam.sort();
+    fam.dedup();
+    TcpPlan {
+        seed,
+        family: format!("{}{}[{}]", if faulty { "buggify" } else { "plain" }, if churn { "+churn" } else { "" }, fam.join(",")),
+        knobs,
+        sched: { let mut sc = netsim::default_sched(&mut rng, faulty); if churn { sc.actor_burst = 8; sc.ev_permute_pm = 800; sc.ev_truncate_pm = 0; } sc },
+        sndbufs: if rng.below(2) == 0 { Some(vec![0, 4608, 9216, 32768]) } else { None },
+        front_timeout: 60,
+        back_timeout: 30,
+        connect_timeout: 3,
+        conns,
+    }
+}
+
+/// Fault enumeration: every header shape split at every byte position (one cut, the proxy is
+/// guaranteed to see it), in expect and relay mode, payload following immediately.
+pub fn enumerate(tier: Tier) -> Vec<TcpPlan> {
+    let mut out = Vec::new();
+    let shapes = header_shapes();
+    for (si, sh) in shapes.iter().enumerate() {
+        let hl = sh.2.len();
+        let positions: Vec<usize> = match tier {
+            Tier::Thorough => (0..hl).collect(),
+            // quick: unsplit, and the boundaries of sozu's reassembly windows
+            Tier::Quick => [0usize, 13, 16, 28, 52].iter().copied().filter(|p| *p < hl).collect(),
+        };
+        for mode in [Mode::Expect, Mode::Relay] {
+            for cut in positions.iter().copied() {
+                let seed = 0xE000_0000u64 + ((si as u64) << 16) + ((cut as u64) << 2) + if mode == Mode::Relay { 1 } else { 0 };
+                let mut rng = Prng::derive(seed, "c18/enum");
+                let mut knobs = Knobs::default();
+                knobs.buffer_size = 16393;
+                let flow = if cut % 2 == 0 { 0 } else { 1 };
+                let mut c = make_conn(&mut rng, 0, mode, false, knobs.buffer_size, 2000, flow, Some(sh.clone()));
+                // deterministic fragmentation: exactly one visible cut, payload glued to the second half
+                let glue = c.client.side.len.min(40);
+                let mut frags = Vec::new();
+                if cut > 0 { frags.push(Frag { upto: cut as u64, delay_ns: 1_000 }); }
+                frags.push(Frag { upto: hl as u64 + if cut % 3 == 0 { glue } else { 0 }, delay_ns: if cut % 3 == 1 { 1_000 } else { 0 } });
+                c.client.side.frags = frags;
+                c.client.side.pace = Pace::greedy();
+                c.server.side.pace = Pace::greedy();
+                c.client.side.read_hold_ns = 0;
+                c.server.side.read_hold_ns = 0;
+                c.client.side.write_hold_ns = 0;
+                c.server.side.write_hold_ns = 0;
+                out.push(TcpPlan {
+                    seed,
+                    family: format!("enum[{}:{}]", mode.name(), sh.0),
+                    knobs,
+                    sched: SchedCfg::default(),
+                    sndbufs: None,
+                    front_timeout: 60, back_timeout: 30, connect_timeout: 3,
+                    conns: vec![c],
+                });
+            }
+        }
+    }
+    out
+}
+
+pub fn summarize(p: &TcpPlan) -> String {
+    let mut s = format!("{} buf={} ", p.family, p.knobs.buffer_size);
+    for c in &p.conns {
+        let (cs, ss) = (&c.client.side, &c.server.side);
+        s += &format!("[{} {} {} c2b={} {:?}/{:?} b2c={} {:?}/{:?}", c.client.name, c.mode.name(), flow_of(c), cs.len, cs.pace.wq, ss.pace.rq, ss.len, ss.pace.wq, cs.pace.rq);
+        if let Some(h) = &c.hdr { s += &format!(" hdr={}({}B,{:?}) frags={:?}", h.shape, h.len, h.class, cs.frags.iter().map(|f| (f.upto, f.delay_ns)).collect::<Vec<_>>()); }
+        s += "] ";
+    }
+    s += &format!("sched(trunc={} perm={} preempt={} short={} eagain={})", p.sched.ev_truncate_pm, p.sched.ev_permute_pm, p.sched.preempt_pm, p.sched.short_write_pm, p.sched.eagain_pm);
+    s
+}
+
+// =========================================================================== runner
+
+pub fn config_requests(p: &TcpPlan) -> Vec<Request> {
+    let mut v: Vec<Request> = Vec::new();
+    for (i, c) in p.conns.iter().enumerate() {
+        let mut lb = ListenerBuilder::new_tcp(c.front.into());
+        lb.with_expect_proxy(matches!(c.mode, Mode::Expect | Mode::Relay));
+        lb.with_front_timeout(Some(p.front_timeout));
+        lb.with_back_timeout(Some(p.back_timeout));
+        lb.with_connect_timeout(Some(p.connect_timeout));
+        v.push(RequestType::AddTcpListener(lb.to_tcp(None).unwrap()).into());
+        v.push(RequestType::ActivateListener(ActivateListener { address: c.front.into(), proxy: ListenerType::Tcp.into(), from_scm: false }).into());
+        let cluster_id = format!("tcp{i}");
+        let pp = match c.mode {
+            Mode::None => None,
+            Mode::Send => Some(ProxyProtocolConfig::SendHeader as i32),
+            Mode::Expect => Some(ProxyProtocolConfig::ExpectHeader as i32),
+            Mode::Relay => Some(ProxyProtocolConfig::RelayHeader as i32),
+        };
+        v.push(RequestType::AddCluster(Cluster { cluster_id: cluster_id.clone(), proxy_protocol: pp, ..Default::default() }).into());
+        v.push(RequestType::AddTcpFrontend(RequestTcpFrontend { cluster_id: cluster_id.clone(), address: c.front.into(), tags: Default::default() }).into());
+        v.push(RequestType::AddBackend(AddBackend {
+            cluster_id: cluster_id.clone(),
+            backend_id: format!("{cluster_id}-0"),
+            address: c.backend.into(),
+            load_balancing_parameters: Some(LoadBalancingParams::default()),
+            sticky_id: None,
+            backup: None,
+        }).into());
+    }
+    v
+}
+
+/// A worker panic is an observation (caught by `run_worker`, reported as a `panic` violation), not
+/// console output: hundreds of panic messages + backtraces on stderr would fill the pipe the batch
+/// driver only drains after the child exits. Panics outside sozu's sources keep a one-line message.
+fn quiet_worker_panics() {
+    static ONCE: std::sync::Once = std::sync::Once::new();
+    ONCE.call_once(|| {
+        std::panic::set_hook(Box::new(|info| {
+            let from_sozu = info.location().map_or(false, |l| l.file().contains("/lib/src/") || l.file().contains("/command/src/"));
+            if !from_sozu { eprintln!("harness panic: {info}"); }
+        }));
+    });
+}
+
+pub fn run_tcp(plan: &TcpPlan, log: bool) -> TcpOutcome {
+    let mut plan = plan.clone();
+    // A proxy loop that never reaches epoll_wait can only be observed (and broken) from inside the
+    // data-syscall hooks: keep preemption on. Relay sessions are where such a loop is known to
+    // exist; keep the watchdog's wake-up reasoning simple there (no delayed connect, no forced re-arm).
+    plan.sched.preempt_pm = plan.sched.preempt_pm.max(20);
+    if plan.conns.iter().any(|c| c.mode == Mode::Relay) {
+        plan.sched.short_write_pm = 0;
+        plan.sched.eagain_pm = 0;
+        for c in plan.conns.iter_mut() { c.connect_delay_ns = 0; }
+    }
+    quiet_worker_panics();
+    netsim::on_fresh_thread(move || {
+        let mut w = World::new(plan.seed, plan.sched.clone());
+        World::install(&mut w);
+        w.log_on = log;
+        w.sndbuf_choices = plan.sndbufs.clone();
+        let mut client_ids = Vec::new();
+        let mut backend_ids = Vec::new();
+        let mut wd_id = 0;
+        let n = plan.conns.len() as i64;
+        let reqs = config_requests(&plan);
+        let (end, mid) = netsim::run_worker(&mut w, plan.knobs.server_config(), ConfigState::new(), Listeners::default(), |w, m: &mut Master| {
+            m.send_all(reqs);
+            m.push(MOp::Barrier);
+            m.push(MOp::SetBoard("configured".into(), 1));
+            m.push(MOp::WaitBoard("tcp_done".into(), 2 * n));
+            m.push(MOp::Sleep(50 * MS));
+            m.push(MOp::HardStop);
+            wd_id = SpinWatchdog::install(w);
+            for c in &plan.conns {
+                w.topo.insert(c.backend, ConnectMode::Listen { delay_ns: c.connect_delay_ns });
+                let rng = Prng::derive(plan.seed, &format!("tcpbackend/{}", c.server.name));
+                backend_ids.push(w.add_actor(Box::new(TcpBackend::new(c.server.clone(), rng))));
+            }
+            for c in &plan.conns {
+                let rng = Prng::derive(plan.seed, &format!("tcpclient/{}", c.client.name));
+                client_ids.push(w.add_actor(Box::new(TcpClient::new(c.client.clone(), rng))));
+            }
+        });
+        let mut out = TcpOutcome::default();
+        out.panicked = end.panicked;
+        out.aborted = end.aborted;
+        out.boot_error = end.boot_error;
+        {
+            let m: &Master = w.actor_ref(mid);
+            out.config_finals = m.data.finals.clone();
+            for (_, r) in &m.data.responses {
+                if r.status == sozu_command_lib::proto::command::ResponseStatus::Failure as i32 { out.config_failures.push(format!("{}: {}", r.id, r.message)); }
+            }
+        }
+        for i in 0..plan.conns.len() {
+            let c: &TcpClient = w.actor_ref(client_ids[i]);
+            let b: &TcpBackend = w.actor_ref(backend_ids[i]);
+            out.conns.push(ConnOutcome { client: c.record(), backend: b.records() });
+        }
+        out.spins = w.actor_ref::<SpinWatchdog>(wd_id).trips.clone();
+        out.stats = w.stats.clone();
+        out.trace_hash = w.trace.0;
+        out.t_end = w.now;
+        out.log = std::mem::take(&mut w.log);
+        out
+    })
+}
+
+// =========================================================================== oracle (reference model)
+//
+// A TCP relay is two independent, reliable, ordered byte pipes. Whatever one end wrote before its
+// FIN is exactly what the other end reads before EOF; a FIN travels behind the data and closes
+// only its own direction. In send mode the backend-side pipe starts with one v2 header describing
+// (client source, listener address); in relay mode with the client's own header bytes; in expect
+// mode the client's header is consumed. A header that is not a legal (<= 232 byte) v2 header
+// makes the session end with nothing delivered to the backend.
+
+/// How many leading stream bytes are missing, judged from the first raw bytes received.
+fn leading_loss(head: &[u8], key: u64) -> Option<u64> {
+    if head.len() < 8 { return None; }
+    (1..=512u64).find(|k| head.iter().take(24).enumerate().all(|(j, b)| *b == gen_byte(key, j as u64 + k)))
+}
+
+fn static_delay(c: &ConnPlan) -> u64 {
+    let (cs, ss) = (&c.client.side, &c.server.side);
+    c.client.start_ns + c.connect_delay_ns + cs.read_hold_ns + cs.write_hold_ns + ss.read_hold_ns + ss.write_hold_ns + cs.frags.iter().map(|f| f.delay_ns).sum::<u64>()
+}
+
+/// Coarse, plan-level trigger of a connection: who sends the first FIN and what is still in flight
+/// at that moment by construction of the plan. "none": the closing side waits (out of band) until
+/// both directions were delivered completely, so no FIN ever races with data.
+pub fn trigger_of(c: &ConnPlan) -> &'static str {
+    match flow_of(c).as_str() {
+        "client_closes_when_quiet" | "backend_closes_when_quiet" => "none",
+        "client_closes_after_all" | "client_fin_after_data" | "client_close_after_data" => "client_fin_behind_data",
+        "backend_closes_after_all" | "backend_fin_after_data" | "backend_close_after_data" => "backend_fin_behind_data",
+        "client_half_close" => "client_half_close",
+        "backend_half_close" => "backend_half_close",
+        "both_half_close" => "both_half_close",
+        "client_reset" | "backend_reset" => "reset",
+        _ => "other",
+    }
+}
+
+pub fn oracle(p: &TcpPlan, o: &TcpOutcome) -> Vec<Violation> {
+    let mut v = Vec::new();
+    let modes: Vec<&str> = { let mut m: Vec<&str> = p.conns.iter().map(|c| c.mode.name()).collect(); m.sort(); m.dedup(); m };
+    let has = |m: Mode| p.conns.iter().any(|c| c.mode == m);
+    if let Some(pn) = &o.panicked {
+        // the whole worker died: what the peers saw afterwards says nothing more
+        let trig = if has(Mode::Expect) { "expect_mode_session".to_string() } else { format!("modes={}", modes.join("+")) };
+        v.push(Violation::new("panic", format!("worker|{trig}"), pn.clone()));
+        return v;
+    }
+    if let Some((it, calls)) = o.spins.first() {
+        // the worker looped without returning to its event loop until the harness broke the loop
+        let trig = if has(Mode::Relay) { "relay_mode_session".to_string() } else { format!("modes={}", modes.join("+")) };
+        v.push(Violation::new("spin", format!("worker|{trig}"), format!("the worker made {calls} data syscalls inside one event-loop iteration (#{it}) without returning to epoll_wait; the harness broke the loop by shutting down the worker's sockets ({} time(s) in this run)", o.spins.len())));
+        return v;
+    }
+    if let Some(a) = &o.aborted {
+        v.push(Violation::new("no_exit", format!("{a}|modes={}", modes.join("+")), format!("run aborted: {a}")));
+        return v;
+    }
+    for (i, c) in p.conns.iter().enumerate() {
+        let mut cv = judge_conn(p, i, c, &o.conns[i]);
+        if matches!(c.mode, Mode::Expect | Mode::Relay) { rekey_header_session(c, &mut cv); }
+        v.extend(cv);
+    }
+    v
+}
+
+/// Sessions that start in a PROXY-header state (expect, relay) run their own state machines: whatever goes
+/// wrong in them is keyed by mode, address family of the header and whether the header was fragmented.
+fn rekey_header_session(c: &ConnPlan, cv: &mut Vec<Violation>) {
+    let pre = &c.client.side.pre;
+    let split = if c.client.side.frags.iter().any(|f| f.upto < pre.len() as u64) { "split" } else { "whole" };
+    let fam = match pre.get(13).map(|b| b >> 4) { Some(0) => "unspec", Some(1) => "inet4", Some(2) => "inet6", Some(3) => "unix", _ => "other" };
+    let shape = c.hdr.as_ref().map(|h| h.shape.as_str()).unwrap_or("-");
+    let valid = c.hdr.as_ref().map_or(true, |h| h.class == HdrClass::Valid);
+    for x in cv.iter_mut() {
+        let sym = x.key.split('|').next().unwrap_or("").to_string();
+        // refused-header verdicts keep the exact shape (each shape is a distinct input class)
+        let what = if valid { format!("{fam}|{split}") } else { format!("{shape}|{split}") };
+        x.key = match x.class.as_str() {
+            "relay_bytes_differ" | "eof_before_data" => format!("{}_session|{what}|{sym}", c.mode.name()),
+            _ => format!("{}_session|{what}", c.mode.name()),
+        };
+    }
+}
+
+fn judge_conn(p: &TcpPlan, i: usize, c: &ConnPlan, oc: &ConnOutcome) -> Vec<Violation> {
+    let mut v = Vec::new();
+    let cr = &oc.client;
+    let flow = flow_of(c);
+    let base_trig = trigger_of(c);
+    // with other sessions in the same worker a quiet session can still be hit by their teardown
+    let base_trig = if base_trig == "none" && p.conns.len() > 1 { "none+concurrent_sessions" } else { base_trig };
+    let quiet = base_trig.starts_with("none");
+    let reset = base_trig == "reset";
+    // expect and relay sessions run their own state machines before the pipe: their verdicts are keyed apart
+    let trig_owned = match c.mode { Mode::Expect | Mode::Relay => format!("{base_trig}+{}", c.mode.name()), _ => base_trig.to_string() };
+    let trig = trig_owned.as_str();
+    let mode = c.mode.name();
+    let (cs, ss) = (&c.client.side, &c.server.side);
+    if let Some(e) = cr.connect_err {
+        v.push(Violation::new("listener_unreachable", format!("connect|{mode}"), format!("conn {i}: client could not connect to the listener {}: errno {e}", c.front)));
+        return v;
+    }
+    let hdr_class = c.hdr.as_ref().map(|h| h.class.clone());
+    let shape = c.hdr.as_ref().map(|h| h.shape.clone()).unwrap_or_else(|| "-".into());
+    let forwarded: u64 = oc.backend.iter().map(|b| b.raw_received).sum();
+    // ------------------------------------------------------------ headers that must be refused
+    if let Some(class) = hdr_class.clone().filter(|k| *k != HdrClass::Valid) {
+        let relay_may_accept = c.mode == Mode::Relay && class == HdrClass::Oversized;
+        let accepted_relay = relay_may_accept && oc.backend.len() == 1 && oc.backend[0].raw_received >= cs.pre.len() as u64 && oc.backend[0].head.starts_with(&cs.pre[..cs.pre.len().min(oc.backend[0].head.len())]);
+        if accepted_relay {
+            // the documented 232-byte limit is about expect mode; relaying a long legal header verbatim is acceptable
+            let b = &oc.backend[0];
+            let got_stream = b.raw_received - cs.pre.len() as u64;
+            if got_stream > cr.sent { v.push(Violation::new("relay_bytes_differ", format!("duplicated|c2b|{trig}|{mode}:{shape}"), format!("conn {i}: backend got {got_stream} stream bytes after the relayed header, client sent {}", cr.sent))); }
+            return v;
+        }
+        if forwarded > 0 {
+            let b = oc.backend.iter().find(|b| b.raw_received > 0).unwrap();
+            v.push(Violation::new("forwarded_after_bad_header", format!("{mode}|{shape}"), format!("conn {i}: header {shape} ({class:?}) yet the backend received {forwarded} bytes, first {:02x?}", &b.head[..b.head.len().min(32)])));
+        }
+        if !cr.eof {
+            v.push(Violation::new("bad_header_not_closed", format!("{mode}|{shape}"), format!("conn {i}: header {shape} ({class:?}): the client never saw the session end (gave_up={})", cr.gave_up)));
+        } else if cr.t_eof > cr.t_start + static_delay(c) + (p.front_timeout as u64 + 5) * SEC {
+            v.push(Violation::new("bad_header_not_closed", format!("late|{mode}|{shape}"), format!("conn {i}: header {shape}: session ended only after {} ms", (cr.t_eof - cr.t_start) / MS)));
+        }
+        for (bi, b) in oc.backend.iter().enumerate() {
+            if !b.eof && !b.closed { v.push(Violation::new("bad_header_not_closed", format!("backend_conn_left_open|{mode}|{shape}"), format!("conn {i}: backend connection {bi} opened for a refused header was never closed"))); }
+        }
+        return v;
+    }
+    // ------------------------------------------------------------ valid (or no) header
+    if c.hdr.is_some() && quiet {
+        // a valid header must be accepted: the session goes on. Only judged when no FIN can be the reason.
+        // (judged on the client's payload: with none planned, the pipe checks below speak)
+        let rejected = (cr.eof || cr.gave_up) && cs.len > 0 && forwarded == 0 && cr.received == 0;
+        if rejected {
+            let hl = cs.pre.len() as u64;
+            let split = if cs.frags.iter().any(|f| f.upto < hl) { "split" } else { "whole" };
+            let fam = match cs.pre.get(13).map(|b| b >> 4) { Some(0) => "unspec", Some(1) => "inet4", Some(2) => "inet6", Some(3) => "unix", _ => "other" };
+            v.push(Violation::new("valid_header_rejected", format!("{mode}|{fam}|{split}"), format!("conn {i}: legal header {shape} ({} bytes): session ended with nothing forwarded either way (client wrote {} stream bytes, end at +{} us, {} backend connection(s))", cs.pre.len(), cr.sent, (cr.t_eof.saturating_sub(cr.t_start)) / 1000, oc.backend.len())));
+            return v;
+        }
+    }
+    if oc.backend.is_empty() {
+        // no backend connection at all
+        if (cs.len > 0 || ss.len > 0) && !reset {
+            v.push(Violation::new("eof_before_data", format!("no_backend_connection|{trig}"), format!("conn {i} ({mode}, {flow}): the proxy never connected to the backend; client wrote {} bytes, eof={} err={:?}", cr.sent, cr.eof, cr.rd_err)));
+        }
+        return v;
+    }
+    // The proxy may dial again when a backend hangs up before the connection is established (that is
+    // connection-retry policy, not relaying); but the client's bytes must not be replayed onto two connections.
+    if oc.backend.iter().filter(|b| b.received > 0).count() > 1 {
+        v.push(Violation::new("relay_bytes_differ", format!("replayed_on_second_connection|c2b|{trig}"), format!("conn {i} ({mode}, {flow}): client bytes reached {} backend connections: {:?}", oc.backend.len(), oc.backend.iter().map(|b| b.received).collect::<Vec<_>>())));
+    }
+    // the connection that carried the session (the proxy may have dialled again)
+    let br = oc.backend.iter().rev().max_by_key(|b| b.raw_received).unwrap();
+    let backend_drains = ss.end != End::CloseNow;
+    // ---- what precedes the stream on the backend side
+    match c.mode {
+        Mode::Send => {
+            for b in oc.backend.iter().filter(|b| b.raw_received > 0) {
+                match decode_v2(&b.head) {
+                    Ok(d) => {
+                        if d.command != 1 { v.push(Violation::new("ppv2_malformed", "command_not_proxy", format!("conn {i}: command {}", d.command))); }
+                        if d.transport != 1 { v.push(Violation::new("ppv2_malformed", "transport_not_stream", format!("conn {i}: transport {}", d.transport))); }
+                        let fam_want = if c.client.src.is_ipv4() { 1 } else { 2 };
+                        if d.family != fam_want { v.push(Violation::new("ppv2_malformed", format!("family={}|want={fam_want}", d.family), format!("conn {i}: header {:02x?}", &b.head[..b.head.len().min(60)]))); }
+                        if d.src != Some(c.client.src) { v.push(Violation::new("ppv2_wrong_addr", "src", format!("conn {i}: header source {:?}, client address {}", d.src, c.client.src))); }
+                        if d.dst != Some(c.front) { v.push(Violation::new("ppv2_wrong_addr", "dst", format!("conn {i}: header destination {:?}, listener address {}", d.dst, c.front))); }
+                        // a second header right behind the first one
+                        if b.head.len() >= d.total_len + 12 && b.head[d.total_len..d.total_len + 12] == PP2_SIG {
+                            v.push(Violation::new("ppv2_duplicate", "second_header", format!("conn {i}: a second v2 signature follows the header")));
+                        }
+                    }
+                    Err(PpErr::Short(n)) => {
+                        // cut short: only the proxy's doing if the backend kept reading and no FIN raced
+                        if quiet && backend_drains { v.push(Violation::new("ppv2_malformed", "truncated", format!("conn {i}: backend got only {} of {n} header bytes: {:02x?}", b.head.len(), b.head))); }
+                    }
+                    Err(PpErr::BadSignature(0)) => {
+                        v.push(Violation::new("ppv2_missing", "payload_first", format!("conn {i}: backend stream does not start with a v2 header: {:02x?}", &b.head[..b.head.len().min(32)])));
+                    }
+                    Err(e) => {
+                        v.push(Violation::new("ppv2_malformed", format!("{e:?}"), format!("conn {i}: {:02x?}", &b.head[..b.head.len().min(60)])));
+                    }
+                }
+            }
+            if br.raw_received == 0 && quiet && backend_drains {
+                v.push(Violation::new("ppv2_missing", "empty_connection", format!("conn {i} ({flow}): the backend connection carried no byte at all")));
+            }
+        }
+        Mode::Relay => {
+            if br.raw_received > 0 {
+                if let Some(e) = &br.prefix_error {
+                    let partial = br.raw_received < cs.pre.len() as u64 && cs.pre.starts_with(&br.head);
+                    if !(partial && (!quiet || !backend_drains)) {
+                        v.push(Violation::new("ppv2_malformed", format!("relayed_header_differs|{shape}"), format!("conn {i}: {e}; sent {:02x?} backend got {:02x?}", &cs.pre[..cs.pre.len().min(40)], &br.head[..br.head.len().min(40)])));
+                    }
+                }
+                let hl = cs.pre.len();
+                if br.head.len() >= hl + 12 && br.prefix_len == Some(hl) && br.head[hl..hl + 12] == PP2_SIG {
+                    v.push(Violation::new("ppv2_duplicate", format!("relayed_twice|{shape}"), format!("conn {i}: the relayed header is followed by another v2 signature")));
+                }
+            } else if quiet && backend_drains {
+                let split = if cs.frags.iter().any(|f| f.upto < cs.pre.len() as u64) { "split" } else { "whole" };
+                let fam = match cs.pre.get(13).map(|b| b >> 4) { Some(0) => "unspec", Some(1) => "inet4", Some(2) => "inet6", Some(3) => "unix", _ => "other" };
+                v.push(Violation::new("ppv2_missing", format!("relay_empty_connection|{fam}|{split}"), format!("conn {i} ({flow}, header {shape}): the backend connection carried no byte at all")));
+            }
+        }
+        Mode::Expect => {
+            if br.head.len() >= 12 && br.head[..12] == PP2_SIG {
+                v.push(Violation::new("forwarded_after_bad_header", format!("expect_header_forwarded|{shape}"), format!("conn {i}: expect mode consumed nothing: the backend received the PROXY header itself")));
+            }
+        }
+        Mode::None => {}
+    }
+    // ---- the two pipes
+    struct Dir<'a> { name: &'static str, tx: &'a SideRecord, rx: &'a SideRecord, txp: &'a SidePlan, rxp: &'a SidePlan }
+    let dirs = [
+        Dir { name: "c2b", tx: cr, rx: br, txp: cs, rxp: ss },
+        Dir { name: "b2c", tx: br, rx: cr, txp: ss, rxp: cs },
+    ];
+    let hdr_tag = match &c.hdr { Some(h) => format!("{mode}:{}", h.shape), None => mode.to_string() };
+    for d in &dirs {
+        let key = |sym: &str| format!("{sym}|{}|{trig}", d.name);
+        let key_h = |sym: &str| format!("{sym}|{}|{trig}|{hdr_tag}", d.name);
+        if let Some(off) = d.rx.first_bad {
+            let lost = if off == 0 { leading_loss(&d.rx.head[d.rx.prefix_len.unwrap_or(0).min(d.rx.head.len())..], d.txp.key) } else { None };
+            match lost {
+                Some(k) => v.push(Violation::new("relay_bytes_differ", key_h("leading_bytes_lost"), format!("conn {i} {} ({flow}): the first {k} stream bytes never arrived (receiver got {} bytes, sender wrote {})", d.name, d.rx.received, d.tx.sent))),
+                None => v.push(Violation::new("relay_bytes_differ", key_h("corrupted"), format!("conn {i} {} ({flow}): stream differs at offset {off} (receiver got {} bytes, sender wrote {}); first bytes {:02x?}", d.name, d.rx.received, d.tx.sent, &d.rx.head[..d.rx.head.len().min(40)]))),
+            }
+            continue;
+        }
+        if d.rx.received > d.tx.sent {
+            v.push(Violation::new("relay_bytes_differ", key_h("duplicated"), format!("conn {i} {} ({flow}): receiver got {} bytes, sender wrote {}", d.name, d.rx.received, d.tx.sent)));
+            continue;
+        }
+        if reset {
+            if d.rx.gave_up { v.push(Violation::new("eof_before_data", key("never_ended"), format!("conn {i} {} ({flow}): the receiver never saw the session end after the other side vanished", d.name))); }
+            continue;
+        }
+        // strict delivery: every planned byte must arrive (a sender stopped by EPIPE was cut by the proxy)
+        if d.rx.received < d.txp.len {
+            let how = if d.rx.gave_up { "stalled" } else { "truncated" };
+            v.push(Violation::new("eof_before_data", key(how), format!("conn {i} {} ({mode}, {flow}): receiver got {} of {} bytes (sender wrote {}, wr_err={:?}); receiver eof={} err={:?} at +{} us; sender fin_sent={} eof={}", d.name, d.rx.received, d.txp.len, d.tx.sent, d.tx.wr_err, d.rx.eof, d.rx.rd_err, d.rx.t_eof.saturating_sub(d.rx.t_start) / 1000, d.tx.fin_sent, d.tx.eof)));
+            continue;
+        }
+        // the receiver must learn the end of the stream unless it closes first by plan
+        if matches!(d.rxp.end, End::WaitPeer | End::HalfClose) && !d.rx.eof {
+            v.push(Violation::new("eof_before_data", key("eof_never_delivered"), format!("conn {i} {} ({mode}, {flow}): all {} bytes arrived but the receiver never saw EOF (gave_up={})", d.name, d.txp.len, d.rx.gave_up)));
+            continue;
+        }
+    }
+    // ---- liveness: nobody stalls, so no sozu timer may be needed
+    if !reset {
+        let bound = static_delay(c) + 2500 * MS;
+        for (who, r) in [("client", cr), ("backend", br)] {
+            if r.t_end > r.t_start + bound && !r.gave_up {
+                v.push(Violation::new("stall_needed_timer", format!("{who}|{trig}"), format!("conn {i} ({mode}, {flow}): {who} finished {} ms after its start (plan delays {} ms): completion needed a timer", (r.t_end - r.t_start) / MS, static_delay(c) / MS)));
+            }
+        }
+    }
+    v
+}
+
+// =========================================================================== property
+
+fn report(p: &TcpPlan, o: TcpOutcome) -> RunReport {
+    let violations = oracle(p, &o);
+    let mut rep = RunReport { seed: p.seed, family: p.family.clone(), violations, trace_hash: o.trace_hash, stats: o.stats.clone(), summary: summarize(p), ..Default::default() };
+    let verified: u64 = o.conns.iter().map(|c| c.client.received + c.backend.iter().map(|b| b.received).sum::<u64>()).sum();
+    rep.nontrivial = verified > 0 || o.conns.iter().any(|c| c.client.eof);
+    rep.probes.insert("stream_bytes_verified".into(), verified);
+    rep.probes.insert("connections".into(), o.conns.len() as u64);
+    for (i, c) in p.conns.iter().enumerate() {
+        let oc = &o.conns[i];
+        *rep.probes.entry(format!("mode_{}", c.mode.name())).or_insert(0) += 1;
+        *rep.probes.entry(format!("flow_{}", flow_of(c))).or_insert(0) += 1;
+        if let Some(h) = &c.hdr {
+            *rep.probes.entry(format!("hdr_{}", match &h.class { HdrClass::Valid => "valid", HdrClass::Oversized => "oversized", HdrClass::Malformed(_) => "malformed", HdrClass::Truncated => "truncated" })).or_insert(0) += 1;
+            *rep.probes.entry("hdr_fragments".into()).or_insert(0) += c.client.side.frags.len() as u64;
+        }
+        if oc.client.eof { *rep.probes.entry("client_saw_eof".into()).or_insert(0) += 1; }
+        if oc.client.rd_err.is_some() { *rep.probes.entry("client_saw_reset".into()).or_insert(0) += 1; }
+        if oc.client.wr_blocked > 0 { *rep.probes.entry("client_write_backpressure".into()).or_insert(0) += 1; }
+        for b in &oc.backend {
+            if b.eof { *rep.probes.entry("backend_saw_eof".into()).or_insert(0) += 1; }
+            if b.wr_blocked > 0 { *rep.probes.entry("backend_write_backpressure".into()).or_insert(0) += 1; }
+            if b.prefix_len.unwrap_or(0) > 0 { *rep.probes.entry("backend_prefix_recognised".into()).or_insert(0) += 1; }
+        }
+        if oc.backend.len() > 1 { *rep.probes.entry("backend_redialled".into()).or_insert(0) += 1; }
+        if oc.client.gave_up || oc.backend.iter().any(|b| b.gave_up) { *rep.probes.entry("peer_gave_up".into()).or_insert(0) += 1; }
+    }
+    if let Some(e) = o.boot_error { rep.harness_error = Some(format!("worker boot failed: {e}")); }
+    if !o.config_failures.is_empty() { rep.harness_error = Some(format!("configuration refused: {:?}", o.config_failures)); }
+    if o.panicked.is_none() && o.aborted.is_none() && o.config_finals.values().any(|n| *n != 1) { rep.harness_error = Some("configuration command without exactly one final answer".into()); }
+    rep
+}
+
 impl Property for C18 {
     fn id(&self) -> &'static str { "C18" }
-    fn runs(&self, _tier: Tier) -> u64 { 0 }
-    fn gen_plan(&self, _seed: u64, _tier: Tier) -> Value { Value::Null }
-    fn run_plan(&self, _plan: &Value) -> RunReport { RunReport { harness_error: Some("not implemented".into()), ..Default::default() } }
-    fn descr(&self) -> Descr { Descr { level: "exploration", rule: "", assumptions: vec![], real: vec![], stub: vec![], not_covered: vec![] } }
+    fn runs(&self, tier: Tier) -> u64 { match tier { Tier::Quick => 5000, Tier::Thorough => 250000 } }
+    fn gen_plan(&self, seed: u64, tier: Tier) -> Value { serde_json::to_value(generate(seed, tier)).unwrap() }
+    fn enumerated(&self, tier: Tier) -> Vec<Value> { enumerate(tier).into_iter().map(|p| serde_json::to_value(p).unwrap()).collect() }
+    fn run_plan(&self, plan: &Value) -> RunReport {
+        let p: TcpPlan = match serde_json::from_value(plan.clone()) { Ok(p) => p, Err(e) => return RunReport { harness_error: Some(format!("bad plan: {e}")), ..Default::default() } };
+        let o = run_tcp(&p, false);
+        report(&p, o)
+    }
+    fn shrink(&self, plan: &Value) -> Vec<Value> {
+        let Ok(p) = serde_json::from_value::<TcpPlan>(plan.clone()) else { return vec![] };
+        shrink_tcp(&p).into_iter().map(|p| serde_json::to_value(p).unwrap()).collect()
+    }
+    fn debug_plan(&self, plan: &Value) -> String {
+        let p: TcpPlan = serde_json::from_value(plan.clone()).unwrap();
+        let o = run_tcp(&p, true);
+        let mut s = String::new();
+        for l in &o.log { s += l; s.push('\n'); }
+        s += &format!("{}\n", summarize(&p));
+        for (i, c) in o.conns.iter().enumerate() {
+            let mut cr = c.client.clone();
+            cr.head.truncate(48);
+            s += &format!("conn {i} client: {cr:?}\n");
+            for b in &c.backend { let mut b = b.clone(); b.head.truncate(64); s += &format!("conn {i} backend: {b:?}\n"); }
+        }
+        s += &format!("panicked={:?} aborted={:?} boot={:?} config_failures={:?}\n", o.panicked, o.aborted, o.boot_error, o.config_failures);
+        for v in oracle(&p, &o) { s += &format!("VIOLATION {} {} {}\n", v.class, v.key, v.detail); }
+        s
+    }
+    fn descr(&self) -> Descr {
+        Descr {
+            level: "exploration",
+            rule: "seeded plans (1-3 concurrent TCP sessions, each with its own listener/cluster/backend; proxy-protocol mode none/send/expect/relay; IPv4 and IPv6; stream lengths 0..300 kB (quick) / 3 MB (thorough) biased to buffer and window boundaries; write/read quanta down to 1 byte, pauses, read holds (back-pressure), SO_SNDBUF on every socket; who ends the connection and how: close once everything was delivered, close/FIN right behind the data, half-close with the other direction busy, close without draining; PROXY v2 header shape (IPv4, IPv6, UNIX, UNSPEC, LOCAL/PROXY, TLV tails up to and over 232 bytes, malformed, truncated) and fragmentation; worker buffer size; epoll truncation/permutation, preemption inside data syscalls, injected short writes/EAGAIN) plus, as fault enumeration, every header shape split at every byte position (thorough) or at the reassembly-window boundaries (quick) in expect and relay mode; a run is non-trivial when at least one stream byte was verified end-to-end or a session verdict (EOF) was observed; distinct = distinct syscall/decision trace hashes",
+            assumptions: vec![
+                "AF_UNIX stream sockets stand in for TCP: no RST-discards-data, partial writes land on skb boundaries; a reset (ECONNRESET) read by a peer is treated like EOF for ordering purposes",
+                "EPOLLHUP translated to TCP semantics by the simulator (world.rs::tcp_hup_semantics)",
+                "a backend that hangs up before the proxy finished connecting may be dialled again (connection-retry policy, counted as probe backend_redialled); only a replay of client bytes onto two connections is a violation",
+                "in relay mode a legal header longer than the 232 bytes sozu documents may be either relayed verbatim or refused; preemption is kept >= 20 per mille in every run and relay runs use no delayed connect / injected short writes (watchdog reasoning)",
+                "release semantics (debug assertions off)", "x86-64 Linux",
+            ],
+            real: vec!["sozu_lib::server::Server::run (whole worker: tcp.rs session state machine, protocol/pipe.rs, proxy_protocol/{expect,relay,send,parser,header}.rs, socket.rs, buffer pool, backends, timers)", "sozu_command_lib Channel/ConfigState/ListenerBuilder", "mio", "Linux epoll + AF_UNIX"],
+            stub: vec!["IP network (AF_UNIX pairs + address translation)", "clock", "entropy", "TCP clients", "TCP backends", "master process (scripted stub)", "PROXY v2 encoder/strict decoder of the harness", "spin watchdog actor (breaks a worker loop that makes >300000 data syscalls without reaching epoll_wait by shutting the worker's sockets down; such runs are reported as `spin` only)"],
+            not_covered: vec!["WebSocket upgrade through pipe.rs from an H1 session (same Pipe code, different entry: not exercised here)", "splice(2) fast path (feature off by default)", "PROXY protocol v1 (sozu never emits or parses it)", "TLS listeners in front of TCP clusters"],
+        }
+    }
+}
+
+// =========================================================================== minimisation
+
+pub fn shrink_tcp(p: &TcpPlan) -> Vec<TcpPlan> {
+    let mut out: Vec<TcpPlan> = Vec::new();
+    let same = |a: &TcpPlan, b: &TcpPlan| serde_json::to_string(a).unwrap() == serde_json::to_string(b).unwrap();
+    let push = |q: TcpPlan, out: &mut Vec<TcpPlan>| { if !same(&q, p) { out.push(q); } };
+    // drop a connection
+    if p.conns.len() > 1 {
+        for i in 0..p.conns.len() { let mut q = p.clone(); q.conns.remove(i); push(q, &mut out); }
+    }
+    // scheduler and buffers
+    let mut q = p.clone();
+    q.sched.ev_truncate_pm = 0; q.sched.ev_permute_pm = 0; q.sched.preempt_pm = 0; q.sched.short_write_pm = 0; q.sched.eagain_pm = 0;
+    push(q, &mut out);
+    for f in 0..6 {
+        let mut q = p.clone();
+        match f { 0 => q.sched.short_write_pm = 0, 1 => q.sched.eagain_pm = 0, 2 => q.sndbufs = None, 3 => q.sched.preempt_pm = 0, 4 => { q.sched.ev_truncate_pm = 0; q.sched.ev_permute_pm = 0 }, _ => q.sched.actor_burst = 2 }
+        push(q, &mut out);
+    }
+    if p.knobs.buffer_size != 16393 || p.knobs.max_buffers != 1000 { let mut q = p.clone(); q.knobs.buffer_size = 16393; q.knobs.max_buffers = 1000; push(q, &mut out); }
+    for i in 0..p.conns.len() {
+        let c = &p.conns[i];
+        // pacing
+        for side in 0..2 {
+            let mut q = p.clone();
+            { let s = if side == 0 { &mut q.conns[i].client.side } else { &mut q.conns[i].server.side }; s.pace = Pace::greedy(); s.read_hold_ns = 0; s.write_hold_ns = 0; s.sndbuf = None; }
+            push(q, &mut out);
+            for f in 0..4 {
+                let mut q = p.clone();
+                { let s = if side == 0 { &mut q.conns[i].client.side } else { &mut q.conns[i].server.side };
+                  match f { 0 => s.pace = Pace::greedy(), 1 => s.read_hold_ns = 0, 2 => s.write_hold_ns = 0, _ => s.sndbuf = None } }
+                push(q, &mut out);
+            }
+        }
+        let mut q = p.clone(); q.conns[i].connect_delay_ns = 0; q.conns[i].client.start_ns = 0; push(q, &mut out);
+        // lengths (both plans of a connection mirror each other's lengths)
+        let set_len = |q: &mut TcpPlan, cl: u64, sl: u64| {
+            let old_cl = q.conns[i].client.side.len;
+            q.conns[i].client.side.len = cl; q.conns[i].server.side.peer_len = cl;
+            q.conns[i].server.side.len = sl; q.conns[i].client.side.peer_len = sl;
+            // fragments reaching into the payload shrink with it
+            let hl = q.conns[i].client.side.pre.len() as u64;
+            if cl < old_cl { for f in q.conns[i].client.side.frags.iter_mut() { if f.upto > hl + cl { f.upto = hl + cl; } } }
+        };
+        let (cl, sl) = (c.client.side.len, c.server.side.len);
+        // keep the flow label: a length may only go to zero if it already is
+        let floor = |n: u64| if n > 0 { 1 } else { 0 };
+        for (a, b) in [(floor(cl), floor(sl)), (cl / 2 + floor(cl) * (cl % 2), sl), (cl, sl / 2 + floor(sl) * (sl % 2)), (floor(cl), sl), (cl, floor(sl)), (cl.saturating_sub(1).max(floor(cl)), sl), (cl, sl.saturating_sub(1).max(floor(sl)))] {
+            if (a, b) != (cl, sl) { let mut q = p.clone(); set_len(&mut q, a, b); push(q, &mut out); }
+        }
+        // header fragmentation
+        if c.hdr.is_some() {
+            let hl = c.client.side.pre.len() as u64;
+            let mut q = p.clone(); q.conns[i].client.side.frags = vec![Frag { upto: hl, delay_ns: 0 }]; push(q, &mut out);
+            let mut q = p.clone(); q.conns[i].client.side.frags = vec![Frag { upto: hl, delay_ns: 1000 }]; push(q, &mut out);
+            for k in 0..c.client.side.frags.len() {
+                if c.client.side.frags.len() > 1 { let mut q = p.clone(); q.conns[i].client.side.frags.remove(k); push(q, &mut out); }
+                if c.client.side.frags[k].delay_ns > 1000 { let mut q = p.clone(); q.conns[i].client.side.frags[k].delay_ns = 1000; push(q, &mut out); }
+            }
+        }
+        // the plain mode, when the violation is not about headers
+        if c.mode != Mode::None && c.hdr.is_none() { let mut q = p.clone(); q.conns[i].mode = Mode::None; q.conns[i].server.prefix = Prefix::None; push(q, &mut out); }
+    }
+    out
 }
